@@ -140,6 +140,19 @@ func genGraph(r *core.Rand, race bool) *graphCase {
 		clash = pair[1]
 	}
 	sort.Strings(names) // /META/models order is free; keep deterministic
+	// catchment-sized batches: one model type has, in one generation, a node count on or beside a power of two / a
+	// round number (a block or worker scheme inside ow-sim or inside Run only fails on exact multiples of its block)
+	wideModel, wideGen, wideN := -1, -1, 0
+	if !long && r.Bool(0.2) {
+		wideModel, wideGen = r.Intn(len(names)), r.Intn(gc.G)
+		wideN = []int{31, 33, 63, 65, 96, 100, 127, 129, 255, 257, 384, 500, 1000}[r.Intn(13)]
+		if r.Bool(0.5) {
+			wideN = []int{32, 64, 128, 128, 256, 256, 512, 1024}[r.Intn(8)]
+		}
+		if gc.T > 5 {
+			gc.T = 5
+		}
+	}
 	anyInputs := false
 	for mi, name := range names {
 		desc := NewModel(name).Description()
@@ -153,6 +166,9 @@ func genGraph(r *core.Rand, race bool) *graphCase {
 			}
 			if table && g == 0 && n == 0 {
 				n = 1
+			}
+			if mi == wideModel && g == wideGen {
+				n = wideN
 			}
 			if table && n > 2 {
 				n = 2
@@ -680,6 +696,14 @@ func owsimCase(c *core.Ctx, race bool) {
 		}
 		if !m.HasInputs && m.Batches[gc.G-1] > 0 {
 			c.Tag("graph:no-stored-inputs")
+		}
+		for g := 0; g < gc.G; g++ {
+			if n := m.count(g); n >= 31 {
+				c.Tag("graph:catchment-sized-batch")
+				if n%32 == 0 {
+					c.Tag("graph:batch-multiple-of-32")
+				}
+			}
 		}
 	}
 	if emptyBatches > 0 {
